@@ -1137,6 +1137,58 @@ func c18Loader(c *Check, ci *chrootInfo) {
 			}
 		})
 	}
+	// The callers, inside the package, of a function that builds the confined
+	// filesystem from a raw one they hold themselves: once the project is
+	// configured, the raw filesystem has done its work. Handing it to anything
+	// else on a path after the configuring call reads files the root does not
+	// confine (a fast path that decodes a compiled module with it, say).
+	builders := map[*ssa.Function]int{} // builder -> index of its raw-filesystem parameter
+	for _, f := range p.RepoFuncs() {
+		if fnPkgPath(f) != lp.Pkg.Path() || f.Parent() != nil {
+			continue
+		}
+		eachInstr(f, func(_ *ssa.BasicBlock, i ssa.Instruction) {
+			if cl, ok := i.(*ssa.Call); ok && isCtorCall(cl) && len(cl.Call.Args) >= 1 {
+				if prm, ok := stripValue(cl.Call.Args[0]).(*ssa.Parameter); ok {
+					builders[f] = paramIndex(f, prm)
+				}
+			}
+		})
+	}
+	for _, f := range p.RepoFuncs() {
+		if fnPkgPath(f) != lp.Pkg.Path() || f.Parent() != nil {
+			continue
+		}
+		eachCall(f, func(cfg ssa.CallInstruction) {
+			b := staticCallee(cfg)
+			k, isBuilder := builders[b]
+			if !isBuilder || b == f || k >= len(cfg.Common().Args) {
+				return
+			}
+			raw, ok := stripValue(cfg.Common().Args[k]).(*ssa.Parameter)
+			if !ok {
+				return
+			}
+			eachCall(f, func(cl ssa.CallInstruction) {
+				if cl == cfg || !canReach(cfg, cl, nil) {
+					return
+				}
+				for _, a := range cl.Common().Args {
+					if stripValue(a) != ssa.Value(raw) {
+						continue
+					}
+					nRaw++
+					callee := "a dynamic callee"
+					if o := calleeObj(cl); o != nil {
+						callee = shortObj(o)
+					}
+					c.Flagf("RAW-FS-USE", fmt.Sprintf("%s|unconfined filesystem handed to %s after the project is configured", fnName(f), callee), p.pos(cl.Pos()),
+						"%s receives the filesystem that %s was given before it was confined, on a path after %s built the confined one: what it opens is not held inside the root", callee, f.Name(), b.Name())
+				}
+			})
+		})
+	}
+	c.Okf("RAW-FS-USE", "scan", "-", "%d functions of the loader build the confined filesystem from a parameter; their callers in the package were scanned for later uses of the raw one", len(builders))
 	c.Counts["raw_fs_uses_in_loader"] = nRaw
 	c.Counts["loader_parse_fs_arguments"] = n
 	if n == 0 {
